@@ -6,18 +6,26 @@ H == INSTANCE Huffman
 G == INSTANCE ExpGolomb
 VARIABLE seq
 Init == seq = <<>>
-Next == IF Kind = "huffman" THEN \E x \in 0..MaxW : Len(seq) < MaxLen /\ seq' = Append(seq, x)
+\* integer weights that an f32 represents exactly and whose sums are rounded by f32 addition (24-bit significand): the
+\* float constructors of both trees must merge in the same order although e.g. (2^24 - 1) + 2^24 rounds onto 2^25
+F32Set == {1, 3, 16777215, 16777216, 16777218, 33554432, 33554436}
+Next == IF Kind = "huffman_f32" THEN \E x \in F32Set : Len(seq) < MaxLen /\ seq' = Append(seq, x)
+        ELSE IF Kind = "huffman" THEN \E x \in 0..MaxW : Len(seq) < MaxLen /\ seq' = Append(seq, x)
         ELSE \E x \in 0..MaxW : seq = <<>> /\ seq' = <<x>>
 Spec == Init /\ [][Next]_seq
 
 HuffmanLaws == (Kind = "huffman" /\ seq # <<>>) =>
     LET cb == H!Codebook(seq) IN H!PrefixFree(cb) /\ H!Kraft(cb) /\ H!Optimal(seq) /\ H!DecodesBack(seq)
+HuffmanF32Laws == (Kind = "huffman_f32" /\ seq # <<>>) =>
+    LET cb == H!CodebookM(seq, 24) IN H!PrefixFree(cb) /\ H!Kraft(cb) /\ H!DecodesBackM(seq, 24) /\ \A i \in 1..Len(seq) : H!Representable(seq[i], 24)
 GolombLaws == (Kind = "expgolomb" /\ seq # <<>>) => G!RoundTrip(seq[1])
 \* prefix-freeness of the Exp-Golomb code over the enumerated range
 GolombPrefixFree == (Kind = "expgolomb" /\ seq = <<>>) =>
     \A a, b \in 0..(IF MaxW > 40 THEN 40 ELSE MaxW) : a # b => ~H!IsPrefix(G!Codeword(a), G!Codeword(b))
 
-Emit == /\ (Kind = "huffman" /\ seq # <<>>) => PrintT(<<"CASE", ToJson([k |-> "huffman", weights |-> seq, codebook |-> H!Codebook(seq)])>>)
+Emit == /\ (Kind = "huffman_f32" /\ seq # <<>>) => PrintT(<<"CASE", ToJson([k |-> "huffman_f32", weights |-> seq, codebook |-> H!CodebookM(seq, 24),
+                                                                                   exact_differs |-> H!CodebookM(seq, 24) # H!Codebook(seq)])>>)
+        /\ (Kind = "huffman" /\ seq # <<>>) => PrintT(<<"CASE", ToJson([k |-> "huffman", weights |-> seq, codebook |-> H!Codebook(seq)])>>)
         /\ (Kind = "expgolomb" /\ seq # <<>>) => PrintT(<<"CASE", ToJson([k |-> "expgolomb", B |-> MaxLen, n |-> seq[1], codeword |-> G!Codeword(seq[1])])>>)
         /\ (Kind = "expgolomb" /\ seq = <<>>) => PrintT(<<"CASE", ToJson([k |-> "expgolomb_max",
                cases |-> [B \in {8, 16, 32, 64, 128} |-> [d \in 1..20 |-> [d |-> d - 1, codeword |-> G!NearMaxCodeword(B, d - 1)]]]])>>)
